@@ -351,7 +351,7 @@ func (c *Ctx) edgeReturnsNonNil(from, b *ssa.BasicBlock) bool {
 				op := resolveSpill(x.Results[errIdx])
 				if ph, ok := op.(*ssa.Phi); ok {
 					if v, ok := edgeVal[ph]; ok {
-						return c.errNonNilAt(v, edgePred[ph], 0)
+						return c.errNonNilOnEdge(v, edgePred[ph], ph.Block()) || c.errNonNilAt(v, edgePred[ph], 0)
 					}
 				}
 				return false
@@ -363,6 +363,23 @@ func (c *Ctx) edgeReturnsNonNil(from, b *ssa.BasicBlock) bool {
 			return false
 		}
 		prev, cur = cur, cur.Succs[0]
+	}
+	return false
+}
+
+// errNonNilOnEdge: block from ends in a nil test of v and to is the successor taken when v is not nil
+// (`if err != nil { break }` compiled to a direct edge into the block after the loop).
+func (c *Ctx) errNonNilOnEdge(v ssa.Value, from, to *ssa.BasicBlock) bool {
+	if from == nil || to == nil {
+		return false
+	}
+	if _, ok := v.(ssa.Instruction); !ok {
+		return false
+	}
+	for _, t := range nilTestsOf(c, v) {
+		if t.If.Block() == from && t.S == to && t.N != to {
+			return true
+		}
 	}
 	return false
 }
